@@ -460,6 +460,9 @@ func TestCheck(t *testing.T) {
 			report.Scenario{Name: "provider/all-events", Bound: 1, Prune: true, Wrap: report.Bubble(t), Body: func(r *explore.Run) { body(r, rep, "provider/all-events", depth-1, "all", "") }},
 		)
 	}
+	// The real fetcher against an in-process HTTP registry (real sockets: not
+	// in a bubble; no oracle looks at the clock).
+	scs = append(scs, report.Scenario{Name: "provider/http-registry", Bound: 0, Body: func(r *explore.Run) { registryBody(r, rep, "provider/http-registry") }})
 	rep.SelfCheck(t, scs[0], nil)
 	rep.RunScenarios(t, scs)
 	rep.Write(t)
